@@ -491,12 +491,28 @@ Qed.
 Lemma app_nil_perm (l : list N) : Permutation (l ++ []) l.
 Proof. rewrite app_nil_r. reflexivity. Qed.
 
+Lemma look_own st nx o r D L :
+  1 <= nx -> sp_look c st nx o = Some r ->
+  Permutation (created c nx) (vis st ++ D ++ L) ->
+  Permutation (created c (s_nx r)) (vis (s_st r) ++ (D ++ drops (s_evs r)) ++ (L ++ [])).
+Proof.
+  intros Hnx Hr Hinv. unfold sp_look in Hr.
+  repeat match type of Hr with
+  | Some _ = Some _ => injection Hr as <-
+  | None = Some _ => discriminate Hr
+  | context [match ?x with _ => _ end] => destruct x eqn:?
+  | context [if ?x then _ else _] => destruct x eqn:?
+  end; cbn [ok_res none_res panic_res s_nx s_st s_evs drops flat_map]; try solve [perm_count].
+  rewrite (created_succ c nx Hnx). unfold drop_ev. rewrite Hdg. cbn [drops flat_map app]. perm_count.
+Qed.
+
 Theorem step_own st nx o r D L :
   1 <= nx -> spec_step c st nx o = Some r ->
   Permutation (created c nx) (vis st ++ D ++ L) ->
   Permutation (created c (s_nx r)) (vis (s_st r) ++ (D ++ drops (s_evs r)) ++ (L ++ leak_of c st nx o)).
 Proof.
-  intros Hnx Hr Hinv. destruct o; cbn [spec_step] in Hr; try discriminate.
+  intros Hnx Hr Hinv. destruct o; cbn [spec_step] in Hr; try discriminate;
+    try exact (look_own st nx _ r D L Hnx Hr Hinv).
   - (* ONew *)
     exact (new_own st nx dst bk r D L Hr Hinv).
   - (* ODropVec *)
@@ -573,7 +589,7 @@ Lemma spec_nx_mono c st nx o r : spec_step c st nx o = Some r -> nx <= s_nx r.
 Proof.
   intros H. destruct o; cbn [spec_step] in H; try discriminate;
     try (apply sp_splice_inv in H; destruct H as (_ & _ & _ & H); unfold sp_splice in H; rewrite N.eqb_refl in H; cbn [negb] in H);
-    unfold sp_offer, sp_take, sp_take_elem, sp_capacity, sp_drain, sp_new, sp_clone in H; cbv zeta in H;
+    unfold sp_offer, sp_take, sp_take_elem, sp_capacity, sp_drain, sp_new, sp_clone, sp_look in H; cbv zeta in H;
     repeat match type of H with
     | Some _ = Some _ => injection H as <-
     | None = Some _ => discriminate H
